@@ -180,6 +180,12 @@ where
         self.pool.len()
     }
 
+    /// Free intervals in the pool's own iteration order (verification hook, read-only)
+    #[cfg(feature = "verif-hooks")]
+    pub fn verif_intervals(&self) -> alloc::vec::Vec<(T, T)> {
+        self.pool.iter().map(|iv| (iv.low, iv.high)).collect()
+    }
+
     pub fn dump(&self) {
         for _iv in &self.pool {
             crate::mqtt::common::tracing::debug!("{_iv:?}");
